@@ -189,6 +189,10 @@ type Server struct {
 	EventCount int
 	gcq        []gcTask
 	watchers   map[Res][]*watcher
+	history    map[Res][]histEv
+	// KeepHistory makes the server remember watch events so that a watch can start from an
+	// older resourceVersion (needed by real informers: list, then watch from the list's version).
+	KeepHistory bool
 	// RejectDataMutation counts attempts to change ControllerRevision.data (422).
 	RejectDataMutation int
 	// AfterCall, if set, is called after every recorded call, outside the server lock.
@@ -200,7 +204,7 @@ type Server struct {
 var baseTime = time.Date(2020, 1, 1, 0, 0, 0, 0, time.UTC)
 
 func New() *Server {
-	s := &Server{store: Snapshot{}, occ: map[string]int{}, watchers: map[Res][]*watcher{}, curActor: "controller"}
+	s := &Server{store: Snapshot{}, occ: map[string]int{}, watchers: map[Res][]*watcher{}, history: map[Res][]histEv{}, curActor: "controller"}
 	for _, r := range AllRes {
 		s.store[r] = map[string]runtime.Object{}
 	}
@@ -445,6 +449,10 @@ func (s *Server) applyFault(c *Call, f *Fault) (runtime.Object, error) {
 		// consistent: somebody else really removed the object first.
 		if old := s.store[c.Res][key]; old != nil {
 			s.remove(c.Res, key, old)
+			if c.Res == Sets || c.Res == BuiltinSet {
+				// its dependents are left to the garbage collector like after any other deletion
+				s.gcq = append(s.gcq, gcTask{OwnerUID: acc(old).GetUID(), Policy: metav1.DeletePropagationBackground})
+			}
 		}
 		return s.do(c)
 	case "exists":
@@ -538,6 +546,9 @@ func (s *Server) do(c *Call) (runtime.Object, error) {
 		}
 		if err := meta.SetList(l, items); err != nil {
 			return nil, apierrors.NewInternalError(err)
+		}
+		if lm, err := meta.ListAccessor(l); err == nil {
+			lm.SetResourceVersion(fmt.Sprint(s.rv))
 		}
 		return l, nil
 	case "create":
@@ -984,6 +995,39 @@ func (s *Server) RunGCOn(kinds ...Res) int {
 	}
 	if len(kinds) >= 3 {
 		s.gcq = nil
+	}
+	return n
+}
+
+// SweepDangling deletes dependents all of whose owners no longer exist, which is what the real
+// garbage collector eventually does with objects that point at an absent owner.
+func (s *Server) SweepDangling() int {
+	s.mu.Lock()
+	defer s.mu.Unlock()
+	live := map[types.UID]bool{}
+	for _, r := range []Res{Sets, BuiltinSet} {
+		for _, o := range s.store[r] {
+			live[acc(o).GetUID()] = true
+		}
+	}
+	n := 0
+	for _, res := range []Res{Pods, Revisions, PVCs} {
+		for key, o := range s.store[res] {
+			refs := acc(o).GetOwnerReferences()
+			if len(refs) == 0 {
+				continue
+			}
+			dangling := true
+			for _, r := range refs {
+				if live[r.UID] {
+					dangling = false
+				}
+			}
+			if dangling {
+				s.deleteObj(res, key, o, nil)
+				n++
+			}
+		}
 	}
 	return n
 }
